@@ -150,7 +150,7 @@ func Verif_C02_Faults(withQ int) {
 		} else {
 			verifsym.Assert(errors.Is(err, vErrBoom), "Execute returns an error that is not the generator's")
 			g := vLastGen()
-			verifsym.Assert(vHasSub(err.Error(), "`"+g+"`"), "error does not name the generator")
+			verifsym.Assert(vHasSub(err.Error(), g), "error does not name the generator")
 			verifsym.Assert(vHasSub(err.Error(), "example.com/m/"), "error does not name the package")
 			// the failing generator's previous file is byte-identical (package = the one in the last log entry)
 			last := vState.log[len(vState.log)-1]
